@@ -20,7 +20,7 @@ VARIABLES
     curs        \* cursor id -> abstract cursor state
 vars == <<l, content, cfg, curs>>
 
-NoCfg == [codec |-> -1, levels |-> 0, ver |-> 2]
+NoCfg == [codec |-> -1, levels |-> 0, ver |-> 2, maxblk |-> 0]
 NoCurs == [c \in {} |-> Fresh]
 
 TraceInit == l = 1 /\ content = EmptyContent /\ cfg = NoCfg /\ curs = NoCurs
@@ -45,7 +45,7 @@ EvWritten ==
        /\ content' = IF e.kind = "list" THEN ListContent(e.keys)
                      ELSE ArithContent(e.n, e.base, e.step)
        /\ WellFormed(content')
-       /\ cfg' = [codec |-> e.codec, levels |-> e.levels, ver |-> e.ver]
+       /\ cfg' = [codec |-> e.codec, levels |-> e.levels, ver |-> e.ver, maxblk |-> e.maxblk]
     /\ curs' = NoCurs
 
 \* Reader::new on the finished file (C01, C10)
@@ -71,6 +71,10 @@ EvCursor ==
     /\ UNCHANGED <<content, cfg>>
 
 LoadsOk(n) == (~CheckLoads) \/ n <= 2 * (cfg.levels + 2)
+\* the same bound as a volume: an operation that loads at most 2 x (levels + 2) blocks cannot have
+\* been handed more bytes by the source than that many of the file's largest stored block (each
+\* with its 8-byte length prefix)
+BytesOk(b) == (~CheckLoads) \/ b <= 2 * (cfg.levels + 2) * (cfg.maxblk + 8)
 
 \* one cursor operation
 EvOp ==
@@ -80,6 +84,7 @@ EvOp ==
        /\ e.op \in Ops
        /\ Allowed(content, curs[e.c], e.op, e.q, e.res)
        /\ LoadsOk(e.loads)
+       /\ BytesOk(e.bytes)
        /\ curs' = [curs EXCEPT ![e.c] = After(curs[e.c], e.op, e.res)]
     /\ UNCHANGED <<content, cfg>>
 
@@ -104,7 +109,7 @@ EvScan ==
        /\ e.c \in DOMAIN curs
        /\ curs[e.c] = Fresh
        /\ e.out = ScanAnswer(content, e.dir)
-       /\ LoadsOk(e.maxloads)
+       /\ LoadsOk(e.maxloads) /\ BytesOk(e.maxbytes)
        /\ curs' = [curs EXCEPT ![e.c] = [pos |-> 0, zone |-> "rel"]]
     /\ UNCHANGED <<content, cfg>>
 
